@@ -69,6 +69,18 @@ def opSrvReq (args : List SExp) : Option OpResult := do
     pure ⟨impl, fun got => judgeOutcome (malformed r) r.method (strip got) ++ c12 (strip got) ++ c12p got⟩
   | _ => none
 
+/-- `srv.opt <cal|card> <level> <exists> => <status> <Allow, sorted, comma-separated> <object look-ups>`: the answer to
+    OPTIONS as the model's `options` has it (C12: decided by the level, and at object level by the object's existence) -/
+def opSrvOpt (args : List SExp) : Option OpResult := do
+  match args with
+  | [.atom _srv, .atom lvl, .atom ex] =>
+    let level ← lvl.toNat?
+    let a := optionsK level (ex = "1")
+    let sorted := (a.allow.toArray.qsort (· < ·)).toList
+    let want := s!"204 {",".intercalate sorted} {a.objectReads}"
+    pure ⟨want, mustEqual "C12" "OPTIONS-answer-does-not-follow-the-level" want⟩
+  | _ => none
+
 /-- `srv.obj <srv> <body> => <status> <mutated>`: an object body through PUT; the object parsers are outside the model
     (the model abstains), the outcome must be 201 (parsed, stored) or 400 (refused, nothing stored) -/
 def opSrvObj (args : List SExp) : Option OpResult := do
